@@ -78,6 +78,62 @@ func vUseMessage(m *AuditMessage, prop string) {
 	}
 }
 
+var vWarmLines = []string{
+	`type=SYSCALL msg=audit(1.000:1): arch=c000003e syscall=59 success=yes exit=0 a0=1 items=2 ppid=1 pid=2 auid=1000 uid=0 ses=4294967295 comm="ls" exe="/bin/ls" key=(null)`,
+	`type=EXECVE msg=audit(1.000:1): argc=2 a0="ls" a1=2D6C20`,
+	`type=PATH msg=audit(1.000:1): item=0 name=2F746D702F6120 inode=5 dev=08:01 mode=0100755 ouid=0 ogid=0 rdev=00:00 nametype=NORMAL`,
+	`type=SOCKADDR msg=audit(1.000:1): saddr=02000050C0A80001000000000000000`+`0`,
+	`type=AVC msg=audit(1.000:1): avc:  denied  { read write } for  pid=1 comm="x" scontext=a:b:c:s0 tcontext=d:e:f:s0 tclass=file`,
+	`type=USER_CMD msg=audit(1.000:1): pid=3 uid=0 auid=1000 ses=1 msg='cwd="/" cmd=6C73202D6C terminal=pts/0 res=success'`,
+	`type=PROCTITLE msg=audit(1.000:1): proctitle=6C73002D6C`,
+}
+
+// vWarm (parameter "warm"): the parser is used on a handful of ordinary records first - whatever it
+// keeps between calls (caches, pools, scratch buffers) is then in the state a running program has it
+// in, not fresh. The returned function checks at the end that those earlier messages still report
+// what they reported when they were parsed.
+func vWarm(prop string) func() {
+	if vParam("warm", 0) == 0 {
+		return func() {}
+	}
+	type kept struct {
+		m  *AuditMessage
+		d  map[string]string
+		t  []string
+		rt AuditMessageType
+		sq uint32
+	}
+	var ks []kept
+	for _, l := range vWarmLines {
+		m, err := ParseLogLine(l)
+		vAssert(err == nil && m != nil, prop+"/ordinary-record-rejected")
+		if m == nil {
+			continue
+		}
+		d, _ := m.Data()
+		t, _ := m.Tags()
+		_ = m.ToMapStr()
+		cp := make(map[string]string, len(d))
+		for k, v := range d {
+			cp[k] = v
+		}
+		ks = append(ks, kept{m, cp, append([]string(nil), t...), m.RecordType, m.Sequence})
+	}
+	return func() {
+		for _, k := range ks {
+			d, _ := k.m.Data()
+			same := len(d) == len(k.d) && k.m.RecordType == k.rt && k.m.Sequence == k.sq
+			for key, v := range k.d {
+				v2, ok := d[key]
+				same = same && ok && v2 == v
+			}
+			t, _ := k.m.Tags()
+			same = same && len(t) == len(k.t)
+			vAssert(same, prop+"/earlier-message-changed-by-a-later-parse")
+		}
+	}
+}
+
 // VH_LineTotal: ParseLogLine on every ASCII line of n bytes.
 func VH_LineTotal() {
 	n := vLen("n", vParam("maxlen", 4))
@@ -106,6 +162,7 @@ var vTypes = []AuditMessageType{AUDIT_SYSCALL, AUDIT_SECCOMP, AUDIT_SOCKADDR, AU
 
 // VH_BodyTotal: Parse(t, header + body) with an arbitrary ASCII body of n bytes.
 func VH_BodyTotal() {
+	defer vWarm("C05")()
 	n := vLen("n", vParam("maxlen", 3))
 	ti := vParam("type", -1)
 	var t AuditMessageType
@@ -139,6 +196,7 @@ var vKeys = []string{"saddr", "argc", "a0", "a1", "exit", "arch", "syscall", "si
 // VH_FieldTotal: key=<v> templates with v of n symbolic bytes, unquoted and quoted, for every key an
 // enrichment step looks at, on the record type that step belongs to.
 func VH_FieldTotal() {
+	defer vWarm("C05")()
 	ki := vParam("key", 0)
 	n := vLen("n", vParam("maxlen", 3))
 	t := vTypes[vParam("type", 0)]
